@@ -26,9 +26,9 @@ Theorem gen_moved_from_then_clear :
      let '(_, _, _, _, sc, sn, sr, sp) := Gen_TreeSet3.MoveCtor c n r p c' n' r' p' in
      Gen_TreeSet.Clear (Gen_SetCrew.pvIsNull sc) sn sr sp = GenPrelude.Ok (tt, sn, sr, sp) /\
      Gen_TreeSet.pvDestroy (Gen_SetCrew.pvIsNull sc) sn sr sp = GenPrelude.Ok tt) /\
-  (forall c n k b c' n' k' b' shrink,
+  (forall nb c n k b c' n' k' b' shrink,
      let '(_, _, _, _, sc, sn, sk, sb) := Gen_HashSet3.MoveCtor c n k b c' n' k' b' in
-     Gen_HashSet.Clear (Gen_SetCrew.pvIsNull sc) sn sk sb shrink = GenPrelude.Ok (tt, sn, sk, sb)) /\
+     Gen_HashSet.Clear (Gen_SetCrew.pvIsNull sc) nb sn sk sb shrink = GenPrelude.Ok (tt, sn, sk, sb)) /\
   (forall mv c r p i c' r' p' i',
      let '(_, _, _, _, sc, _, _, _) := Gen_DataTable3.MoveCtor mv c r p i c' r' p' i' in
      Gen_DataTable.Clear (Gen_TableCrew.IsNull sc 0) = GenPrelude.Ok tt).
